@@ -303,8 +303,34 @@ func newC16World(c C16Case) *c16World {
 	return w
 }
 
+// c16IsDNSName: what a real resolver accepts as a host name (the rule net's isDomainName applies:
+// letters, digits, '-', '_', non-empty labels of <= 63 bytes, <= 253 bytes, one optional trailing
+// dot). For anything else a resolver answers "no such host" without asking anybody; the scripted
+// resolver does the same.
+func c16IsDNSName(h string) bool {
+	h = strings.TrimSuffix(h, ".")
+	if h == "" || len(h) > 253 {
+		return false
+	}
+	for _, label := range strings.Split(h, ".") {
+		if label == "" || len(label) > 63 {
+			return false
+		}
+		for i := 0; i < len(label); i++ {
+			c := label[i]
+			if !(c >= 'a' && c <= 'z' || c >= 'A' && c <= 'Z' || c >= '0' && c <= '9' || c == '-' || c == '_') {
+				return false
+			}
+		}
+	}
+	return true
+}
+
 // answer returns the scripted addresses of a (non-literal) host and whether resolution works.
 func (w *c16World) answer(host string) ([]netip.Addr, bool) {
+	if !c16IsDNSName(host) {
+		return nil, false
+	}
 	r, ok := w.res[c16CanonHost(host)]
 	addrs := w.def
 	if ok {
@@ -339,23 +365,27 @@ func (v c16Verdict) String() string {
 }
 
 func c16Evaluate(p c16Policy, w *c16World, raw string) c16Verdict {
-	v := c16Eval(p, w, raw, false)
+	u, err := url.Parse(raw)
+	if err != nil || u == nil {
+		return c16Verdict{NoTarget: true, Reasons: []string{"unparsable"}}
+	}
+	return c16EvaluateParts(p, w, u.Scheme, u.Hostname())
+}
+
+// c16EvaluateParts judges a (scheme, host) pair: what url.Parse made of a URL string, or the
+// URL fields of a request the transport saw.
+func c16EvaluateParts(p c16Policy, w *c16World, scheme, hostname string) c16Verdict {
+	v := c16Eval(p, w, scheme, hostname, false)
 	if !v.NoTarget && !v.Literal && !v.Unresolved {
-		blind := c16Eval(p, w, raw, true)
+		blind := c16Eval(p, w, scheme, hostname, true)
 		v.AddrDecides = blind.MustDeny != v.MustDeny
 	}
 	return v
 }
 
-func c16Eval(p c16Policy, w *c16World, raw string, blind bool) c16Verdict {
+func c16Eval(p c16Policy, w *c16World, scheme, hostname string, blind bool) c16Verdict {
 	var v c16Verdict
-	u, err := url.Parse(raw)
-	if err != nil || u == nil {
-		v.NoTarget = true
-		v.Reasons = append(v.Reasons, "unparsable")
-		return v
-	}
-	scheme := strings.ToLower(u.Scheme)
+	scheme = strings.ToLower(scheme)
 	if scheme != "http" && scheme != "https" {
 		v.MustDeny = true
 		v.Reasons = append(v.Reasons, "scheme")
@@ -363,7 +393,7 @@ func c16Eval(p c16Policy, w *c16World, raw string, blind bool) c16Verdict {
 		v.MustDeny = true
 		v.Reasons = append(v.Reasons, "https-only")
 	}
-	host := c16CanonHost(u.Hostname())
+	host := c16CanonHost(hostname)
 	v.Host = host
 	if host == "" {
 		v.NoTarget = true
@@ -425,7 +455,7 @@ type c16Resolver struct {
 func (r *c16Resolver) LookupIPAddr(_ context.Context, host string) ([]net.IPAddr, error) {
 	r.lookups = append(r.lookups, host)
 	addrs, ok := r.w.answer(host)
-	if e, listed := r.w.res[c16CanonHost(host)]; listed && e.Err {
+	if e, listed := r.w.res[c16CanonHost(host)]; !c16IsDNSName(host) || (listed && e.Err) {
 		return nil, &net.DNSError{Err: "no such host", Name: host, IsNotFound: true}
 	}
 	if !ok {
@@ -439,8 +469,11 @@ func (r *c16Resolver) LookupIPAddr(_ context.Context, host string) ([]net.IPAddr
 }
 
 type c16Req struct {
-	URL    string
-	Method string
+	URL      string
+	Method   string
+	Scheme   string
+	Hostname string
+	U        *url.URL
 }
 
 type c16RT struct {
@@ -451,7 +484,7 @@ type c16RT struct {
 
 func (rt *c16RT) RoundTrip(req *http.Request) (*http.Response, error) {
 	i := len(rt.reqs)
-	rt.reqs = append(rt.reqs, c16Req{URL: req.URL.String(), Method: req.Method})
+	rt.reqs = append(rt.reqs, c16Req{URL: req.URL.String(), Method: req.Method, Scheme: req.URL.Scheme, Hostname: req.URL.Hostname(), U: req.URL})
 	if req.Body != nil {
 		_, _ = io.Copy(io.Discard, req.Body)
 		_ = req.Body.Close()
@@ -801,7 +834,17 @@ func runC16Deliver(c C16Case) *pOutcome {
 
 	// (1) every request that reached the transport went to a URL the policy allows
 	for i, r := range rt.reqs {
-		v := c16Evaluate(orc, w, r.URL)
+		v := c16EvaluateParts(orc, w, r.Scheme, r.Hostname)
+		if v.NoTarget && !v.MustDeny {
+			// net/http normalised the host away (e.g. "http://::" is checked as host ":" and sent with
+			// an empty host, which the dialer reads as the local machine). Loopback is only forbidden
+			// under dns_rebind_protection; otherwise the statement does not cover it.
+			if !orc.rebind {
+				out.label("open:request-with-empty-host")
+				continue
+			}
+			v.Reasons = []string{"empty-host-dials-local-machine"}
+		}
 		if v.NoTarget || v.MustDeny {
 			out.Failure = pFail("C16", "request-to-denied-url", i, "hop %d: a request was sent to %q which the policy denies %v (host %q); chain start %q", i, r.URL, v.Reasons, v.Host, c.URL)
 			return out
@@ -826,18 +869,19 @@ func runC16Deliver(c C16Case) *pOutcome {
 	// policy_denied at attempt 1 without a retry.
 	k := len(rt.reqs)
 	next, haveNext := "", false
+	var v c16Verdict
 	switch {
 	case k == 0:
 		next, haveNext = c.URL, true
+		v = c16Evaluate(orc, w, c.URL)
 	case orc.redirects && k <= len(c.Hops) && k < 10 && c16Followable(c.Hops[k-1].Code) && c.Hops[k-1].Loc != "":
-		if last, err := url.Parse(rt.reqs[k-1].URL); err == nil {
-			if nu, err := last.Parse(c.Hops[k-1].Loc); err == nil {
-				next, haveNext = nu.String(), true
-			}
+		// the URL the client derives from the Location header, as net/http does it
+		if nu, err := rt.reqs[k-1].U.Parse(c.Hops[k-1].Loc); err == nil {
+			next, haveNext = nu.String(), true
+			v = c16EvaluateParts(orc, w, nu.Scheme, nu.Hostname())
 		}
 	}
 	if haveNext {
-		v := c16Evaluate(orc, w, next)
 		prefix := "hop0:"
 		if k == 1 {
 			prefix = "hop1:"
